@@ -1,6 +1,7 @@
 package props
 
 import (
+	"fmt"
 	"verif/sim/rt"
 	"verif/sim/simkv"
 	"verif/sim/world"
@@ -17,7 +18,20 @@ func init() {
 			if idx%5 == 3 {
 				o.compactor = true
 			}
-			return genWrites(r, tier, idx, o)
+			sc := genWrites(r, tier, idx, o)
+			if idx%16 == 6 {
+				// a slow engine under requests with a one-second deadline
+				sc.Class += "+slow-commit-and-deadlines"
+				sc.Plan = append(sc.Plan, &simkv.Fault{Op: "commit", Class: "data", Nth: (idx/16)%6 + 1, Effect: fmt.Sprintf("delay:%d", 1200+r.Intn(3000))})
+				for i := range sc.Clients {
+					for j := range sc.Clients[i].Ops {
+						if isWrite(sc.Clients[i].Ops[j].K) {
+							sc.Clients[i].Ops[j].Timeout = 1000
+						}
+					}
+				}
+			}
+			return sc
 		},
 		Epilogue: writesEpilogue,
 		Check:    checkC01,
@@ -41,6 +55,22 @@ func init() {
 				o.faults = "err"
 			}
 			sc := genWrites(r, tier, idx, o)
+			if idx%16 == 5 {
+				// a slow engine and requests with deadlines (the etcd-facing handlers give every write
+				// one second): a request that gives up must not let its revision be resolved while its
+				// storage transaction is still in flight
+				sc.Class = "writers+slow-commit-and-deadlines"
+				k := (idx/16)%6 + 1
+				sc.Plan = append(sc.Plan, &simkv.Fault{Op: "commit", Class: "data", Nth: k, Effect: fmt.Sprintf("delay:%d", 1200+r.Intn(3000))})
+				for i := range sc.Clients {
+					for j := range sc.Clients[i].Ops {
+						if isWrite(sc.Clients[i].Ops[j].K) {
+							sc.Clients[i].Ops[j].Timeout = 1000
+						}
+					}
+				}
+				return sc
+			}
 			if idx%4 == 2 {
 				// every placement of one storage fault over the first 8 data commits x 3 kinds
 				k, kind := (idx/4)%8+1, []string{"err", "uncertain-applied", "uncertain-lost"}[(idx/32)%3]
